@@ -212,9 +212,10 @@ def _has_tparams(toks):
 
 # ---------------------------------------------------------------- rendering
 class Layout:
-    def __init__(self, name='plain', indent='    ', nl='\n', bom=False, final_nl=True, ident_map=None, spread=False):
+    def __init__(self, name='plain', indent='    ', nl='\n', bom=False, final_nl=True, ident_map=None, spread=False, comments=False):
         self.name, self.indent, self.nl, self.bom, self.final_nl, self.ident_map = name, indent, nl, bom, final_nl, ident_map or {}
         self.spread = spread  # line-spread: every bracketed element on its own (indented) line
+        self.comments = comments  # a comment after every line, then a comment-only line and a blank line
 
 
 PLAIN = Layout()
@@ -225,6 +226,9 @@ LAYOUTS = {
     'bom': Layout('bom', bom=True),
     'tab': Layout('tab', indent='\t'),
     'nofinalnl': Layout('nofinalnl', final_nl=False),
+    'comments': Layout('comments', comments=True),
+    'comments-crlf-tab': Layout('comments-crlf-tab', comments=True, nl='\r\n', indent='\t'),
+    'spread-comments': Layout('spread-comments', spread=True, comments=True),
     'spread': Layout('spread', spread=True),
     'spread-crlf': Layout('spread-crlf', spread=True, nl='\r\n', ident_map={'a': 'é'}),
     'multibyte': Layout('multibyte', ident_map={'a': 'é', 't': '名', 'm': 'ñ', "'s'": "'日本'", 'f': 'ƒ', 'p': 'π', 'k': 'ключ', 'C': 'Ç', 'x': 'ξ'}),
@@ -258,6 +262,11 @@ def render(toks, layout=PLAIN, spans=None):
                 spans.append((ti, p, p + b, lineno))
             s += t
             p += b
+        if layout.comments:
+            extra = ' # c' + layout.nl + '  # é' + layout.nl
+            s += extra
+            p += len(extra.encode())
+            lineno += 2
         s += layout.nl
         out.append(s)
         pos = p + len(layout.nl)
